@@ -1702,7 +1702,8 @@ class LoopExpression(Expression):
                 # A drop that is a mapping in name only, like `forloop`, whose
                 # iterator does not produce its keys.
                 raise LiquidTypeError(
-                    f"expected an iterable at '{self.iterable}', found '{obj}'",
+                    f"expected an iterable at '{self.iterable}', "
+                    f"found '{_describe(obj)}'",
                     token=self.token,
                 ) from err
             return iter(items), len(items)
@@ -1719,7 +1720,7 @@ class LoopExpression(Expression):
             return iter(obj), len(obj)
 
         raise LiquidTypeError(
-            f"expected an iterable at '{self.iterable}', found '{obj}'",
+            f"expected an iterable at '{self.iterable}', found '{_describe(obj)}'",
             token=self.token,
         )
 
@@ -2173,9 +2174,20 @@ def _lt(token: TokenT, left: object, right: object) -> bool:
     )
 
 
+def _describe(obj: object) -> str:
+    """A short description of _obj_ for error messages."""
+    try:
+        return str(obj)
+    except ValueError:
+        # An integer with more digits than sys.get_int_max_str_digits().
+        return obj.__class__.__name__
+
+
 def _contains(token: TokenT, left: object, right: object) -> bool:
     if isinstance(left, str):
-        return str(right) in left
+        # The Liquid string form: `true`, not `True`, and nothing for nil. An
+        # integer too large to convert is a LiquidValueError, not a ValueError.
+        return _to_liquid_string(right) in left
     if isinstance(left, Collection):
         # An undefined right-hand side is nil, whatever the undefined policy.
         if hasattr(right, "__liquid__"):
